@@ -1,5 +1,5 @@
 ------------------------------- MODULE MC_P7Sign -------------------------------
-(* producer configurations of C05: content-size class x content type x key x issuer shape x serial shape *)
+(* producer configurations of C05: content-size class x content type x DER shape of the content x key x issuer shape x serial shape *)
 EXTENDS Integers, TLC, Json
 VARIABLES cfg, done
 Sizes == {0, 1, 55, 56, 64, 4096, 65536}
@@ -7,7 +7,11 @@ Cts == {"data", "spc", "other", "longoid"}
 Keys == {"k1", "k3072", "k4096"}
 Issuers == {"i1", "multi", "long", "ca", "sig384", "sigpss"}
 Serials == {"b1", "7f", "80", "00ff", "big"}
-Init == done = FALSE /\ \E s \in Sizes, c \in Cts, k \in Keys, i \in Issuers, r \in Serials : cfg = [size |-> s, ct |-> c, key |-> k, issuer |-> i, serial |-> r]
+(* the content of a non-data type is DER: one OCTET STRING, one complete SEQUENCE, or two SEQUENCEs back to back (the shape of *)
+(* SpcIndirectDataContent's body); the producer must encapsulate all of them the same way                                      *)
+Shapes(c, s) == IF c \in {"other", "longoid"} /\ s > 0 THEN {"octets", "seq", "seq2"} ELSE {"octets"}
+Init == done = FALSE /\ \E s \in Sizes, c \in Cts, k \in Keys, i \in Issuers, r \in Serials : \E sh \in Shapes(c, s) :
+          cfg = [size |-> s, ct |-> c, shape |-> sh, key |-> k, issuer |-> i, serial |-> r]
 Next == ~done /\ done' = TRUE /\ UNCHANGED cfg
 Emit == done => PrintT(ToJson(cfg))
 =============================================================================
